@@ -238,10 +238,8 @@ class Scrollable(WidgetDecoration[WrappedWidget]):
             # Canvas is lower than available vertical space
             canv.pad_trim_top_bottom(0, fill_height)
 
-        if canv_cols <= maxcol and canv_rows <= maxrow:
-            # Canvas is small enough to fit without trimming
-            return canv
-
+        # Even if the canvas fits without trimming, the scroll position has to be reset
+        # and the keypress forwarding decision below has to be made
         self._adjust_trim_top(canv, size)
 
         # Trim canvas if necessary
